@@ -286,6 +286,22 @@ namespace
                     }
                     R.count("spl.param_change.k");
                 }
+                if (rng.chance(0.15))
+                {
+                    // an erodibility array of another shape is refused; the coefficients in force stay what they were
+                    // (the oracles below keep using kv; had the request been accepted, erode() would read it)
+                    arr_t bad = arr_t::from_shape(mismatched_shape(env.g, rng));
+                    bad.fill(rng.logu(1e-3, 1e3));
+                    try
+                    {
+                        eroder->set_k_coef(bad);
+                        R.count("spl.k_shape_mismatch_accepted");
+                    }
+                    catch (const std::runtime_error&)
+                    {
+                        R.count("spl.k_shape_mismatch_refused");
+                    }
+                }
                 if (rng.chance(0.3))
                 {
                     m_exp = rng.pick(std::vector<double>{ 0.3, 0.5, 1.0, 1.5, 2.0 });
@@ -336,6 +352,12 @@ namespace
             GState S = extract(graph.impl());
             arr_t ze_arr = to_arr(env.g, ze);
             arr_t area_arr = to_arr(env.g, area);
+            if (rng.chance(0.25) && write_nodata_under_mask(rng, in.mask, ze_arr) > 0)
+            {
+                R.count("spl.nodata_elevation_under_mask");
+                if (rng.chance(0.5))
+                    write_nodata_under_mask(rng, in.mask, area_arr);
+            }
             arr_t zcopy = ze_arr;
             const arr_t& eout = eroder->erode(ze_arr, area_arr, dt);
             std::vector<double> e = flat_vec(eout);
@@ -686,7 +708,7 @@ namespace
         {
             kv.assign(n, 0.0);
             double u = rng.u01();
-            ks = rng.logu(1e-10, 1e3);
+            ks = rng.chance(0.06) ? 0.0 : rng.logu(1e-10, 1e3);  // zero diffusivity: nothing moves
             is_scalar = false;
             if (u < 0.3)
             {
@@ -751,7 +773,7 @@ namespace
             er = std::make_unique<adi_t>(*grid, karr(kv));
 
         const int nsteps = static_cast<int>(rng.range(1, 4));
-        double dt = rng.pick(std::vector<double>{ 1e-3, 1.0, 1e3, 1e8 });
+        double dt = rng.pick(std::vector<double>{ 1e-3, 1.0, 1e3, 1e8 });  // (a zero time step only after a regular one, below)
         for (int s = 0; s < nsteps; ++s)
         {
             if (s > 0)
@@ -772,8 +794,32 @@ namespace
                         er->set_k_coef(karr(kv));
                     R.count("c14.k_changed_on_same_eroder");
                 }
+                if (rng.chance(0.15))
+                {
+                    // a diffusivity array of another shape is refused and leaves the eroder as it was
+                    std::array<std::size_t, 2> bsh{ g.rows, g.cols };
+                    if (g.rows != g.cols && rng.chance(0.4))
+                        std::swap(bsh[0], bsh[1]);  // same number of elements, other shape
+                    else
+                        bsh[rng.below(2)] += 1;
+                    xt::xtensor<double, 2> bad = xt::xtensor<double, 2>::from_shape(bsh);
+                    bad.fill(rng.logu(1e-3, 1e3));
+                    const bool same = false;
+                    if (!same)
+                    {
+                        try
+                        {
+                            er->set_k_coef(bad);
+                            R.count("c14.k_shape_mismatch_accepted");
+                        }
+                        catch (const std::runtime_error&)
+                        {
+                            R.count("c14.k_shape_mismatch_refused");
+                        }
+                    }
+                }
                 if (rng.chance(0.4))
-                    dt = rng.pick(std::vector<double>{ 1e-3, 1.0, 1e3, 1e8 });
+                    dt = rng.pick(std::vector<double>{ 0.0, 1e-3, 1.0, 1e3, 1e8 });
                 else
                     R.count("c14.same_dt_as_previous_step");
             }
